@@ -304,6 +304,7 @@ type FuncContract struct {
 	File     string
 	Line     int
 	MayAlias [][2]string
+	Stable   []Clause // locations assumed unchanged by calls of unknown effect
 	QFOnly   bool     // qfonly: quantified hypotheses are never emitted as quantifiers, only as instances (keeps the queries quantifier free)
 	Hints    []Let    // hint v = expr: extra instantiation term for hypotheses quantifying a variable named v
 	GuardVar string  // fileguard a: expr  -- every physical file write may only touch offsets a satisfying expr (evaluated in the entry state)
@@ -388,7 +389,7 @@ func (cs *ContractSet) parseFile(path, pkg string) error {
 	var items []item
 	keywords := map[string]bool{"func": true, "lemma": true, "requires": true, "ensures": true, "modifies": true,
 		"loop": true, "let": true, "panics": true, "replay": true, "import": true, "inline": true, "trusted": true, "perreturn": true,
-		"split": true, "mayalias": true, "assume": true, "define": true, "fileguard": true, "hint": true, "qfonly": true}
+		"split": true, "stable": true, "mayalias": true, "assume": true, "define": true, "fileguard": true, "hint": true, "qfonly": true}
 	for i, ln := range strings.Split(string(data), "\n") {
 		t := strings.TrimSpace(ln)
 		if !strings.HasPrefix(t, "//@") {
@@ -691,6 +692,16 @@ func (cs *ContractSet) parseFile(path, pkg string) error {
 				cur.Trusted = true
 			case "perreturn":
 				cur.PerReturn = true
+			case "stable":
+				// stable E: calls whose effect is unknown (no modifies clause) are assumed not to change the
+				// location E (an assumption, listed in the evidence)
+				for _, part := range splitTop(it.text) {
+					c, err := mkClause(part, it.line)
+					if err != nil {
+						return err
+					}
+					cur.Stable = append(cur.Stable, c)
+				}
 			case "mayalias":
 				n := splitNames(it.text)
 				if len(n) != 2 {
